@@ -22,7 +22,7 @@ META = {
                     'divisor of divmod pinned to 1..9'],
     'bounds': {'quick': 'player count 2..4, sequences up to count+1 entries, mappings with 2 entries, card text of 1-2 cards, raw text of <= 2 printable ASCII characters',
                'thorough': 'same (spaces are finite and exhausted)'},
-    'outside': 'text longer than 2 raw characters / 2 cards; non-int chips',
+    'outside': 'text longer than 2 raw characters / 2 cards; non-int chips other than the grid p/10^e, p<100, e<=2 as Fraction, Decimal, float',
 }
 
 
@@ -289,6 +289,64 @@ def h_divmod(ctx: Any) -> None:
     ctx.cover('done')
 
 
+def _number(ctx: Any, tag: str) -> Any:
+    """a chip amount of one of the numeric types pokerkit documents (int, float, Fraction, Decimal)."""
+    from decimal import Decimal
+    from fractions import Fraction
+    kind = ctx.choice(f'{tag}_type', 4)
+    p = ctx.choice(f'{tag}_p', 100)
+    e = ctx.choice(f'{tag}_e', 3) if kind else 0
+    if kind == 0:
+        return p
+    if kind == 1:
+        return Fraction(p, 10 ** e)
+    if kind == 2:
+        return Decimal(p) / Decimal(10 ** e)
+    return p / 10 ** e
+
+
+def h_divmod_types(ctx: Any) -> None:
+    from pokerkit.utilities import divmod as pk_divmod
+    a = _number(ctx, 'a')
+    d = ctx.choice('d', 9) + 1
+    q, r = pk_divmod(a, d)
+    ctx.check(q * d + r == a, 'parts-do-not-add-up', lambda: f'divmod({a!r}, {d}) = {q!r}, {r!r}')
+    ctx.check(type(q) is type(a) or isinstance(a, int), 'quotient-type')
+    ctx.cover('done')
+
+
+def h_clean_types(ctx: Any, count: int) -> None:
+    """a single number of every numeric type means that number for every player; the same values as list, tuple,
+    mapping give the same layout; and a State built from the scalar equals the one built from the explicit list."""
+    from pokerkit.utilities import clean_values
+    C.native_hands()
+    C.set_deck_order('identity')
+    v = _number(ctx, 'v')
+    exp = (v,) * count
+    form = ctx.choice('form', 4)
+    arg = [v, [v] * count, (v,) * count, {i: v for i in range(count)}][form]
+    try:
+        r = clean_values(arg, count)
+    except Exception as e:
+        C.reraise_control(e)
+        ctx.fail('numeric-form-rejected', f'clean_values({arg!r}, {count}): {type(e).__name__}: {e}')
+    ctx.check(isinstance(r, tuple) and len(r) == count and all(x == y and type(x) is type(y) for x, y in zip(r, exp)),
+              'numeric-form', lambda: f'clean_values({arg!r}, {count}) = {r!r}')
+    if v > 0 and ctx.flag('state'):
+        big = v * 100
+        cfg = dict(n=count, min_bet=2 * v, blinds=(v, 2 * v), antes=0)
+        ref = C.make_state('NT', dict(cfg, stacks=(big,) * count))
+        alt = [big, [big] * count, (big,) * count, {i: big for i in range(count)}][form]
+        try:
+            other = C.make_state('NT', dict(cfg, stacks=alt))
+        except Exception as e:
+            C.reraise_control(e)
+            ctx.fail('numeric-form-rejected-by-the-constructor', f'starting stacks {alt!r}: {type(e).__name__}: {e}')
+        _same_state(ctx, ref, other, f'stacks as {type(alt).__name__} of {type(big).__name__}')
+        ctx.cover('state')
+    ctx.cover('done')
+
+
 def h_rake(ctx: Any) -> None:
     from math import inf
     from pokerkit.utilities import rake
@@ -358,6 +416,10 @@ def jobs(tier: str, seed: int) -> list[dict]:
     out.append(dict(name='hand-forms', fn='h_hand_forms', traced=False, params={}, budget_s=B, must_cover=['done', 'hand']))
     out.append(dict(name='deal-forms', fn='h_deal_forms', traced=False, params={}, budget_s=B, must_cover=['done']))
     out.append(dict(name='divmod', fn='h_divmod', params={}, budget_s=B, must_cover=['done']))
+    out.append(dict(name='divmod/numeric-types', fn='h_divmod_types', traced=False, params={}, budget_s=B, must_cover=['done']))
+    for n in (2, 3):
+        out.append(dict(name=f'clean/numeric-types/n{n}', fn='h_clean_types', traced=False, params=dict(count=n), budget_s=B,
+                        must_cover=['done', 'state']))
     out.append(dict(name='rake/smt', kind='native', fn='smt_rake', params={}, budget_s=B))
     out.append(dict(name='rake/translator-validation', kind='native', fn='smt_translator_validation',
                     params={}, budget_s=60))
